@@ -22,6 +22,9 @@ var (
 	sigmaBars = [][5]float64{
 		{4, 6, 3, 5, 10}, // up bar
 		{7, 7, 2, 2, 5},  // close at low
+		// almost the up bar: near-ties (differences of a few thousandths) expose absolute tolerances and
+		// rounding applied to compared quantities
+		{4, 6.002, 3, 5.004, 10},
 		{5, 8, 5, 8, 20}, // close at high
 		{1, 2, 1, 1, 10}, // small
 		{5, 5, 5, 5, 0},  // flat, zero volume (zero range: exempts ratio indicators from there on, so it comes late)
